@@ -772,6 +772,11 @@ GoodMaps == {BaseMap, [BaseMap EXCEPT !.port = PStr(any3), !.proto = Str("icmp")
 BadMaps == {NoSelMap, [BaseMap EXCEPT !.port = PStr(<<"6","5","6","1","6">>)], [BaseMap EXCEPT !.proto = Str("gre")],
             [BaseMap EXCEPT !.port = PStr(<<"9","0","-","8","0">>)], [BaseMap EXCEPT !.cidr = Str("garbage")]}
 CfgLists(u) == { CfgVec(<<a, b>>, dir, "plain") : a \in GoodMaps \cup BadMaps, b \in GoodMaps \cup BadMaps, dir \in Dirs }
+\* (N) two rules whose remote prefixes are nested (10.0.0.2/24 contains 10.0.0.2/32), each with its own node-side prefix, in
+\* both orders: a rule admits what ITS text says, whatever other rule shares its place in the tables
+NestLocals == {Str("10.0.0.1/32"), Str("192.168.0.1/24"), Str("any"), Missing}
+NestMaps == { [NoSelMap EXCEPT !.cidr = Str(c), !.local_cidr = l] : c \in {"10.0.0.2/24", "10.0.0.2/32"}, l \in NestLocals }
+CfgNested(u) == { CfgVec(<<q[1], q[2]>>, dir, env) : q \in {x \in NestMaps \X NestMaps : x[1] # x[2]}, dir \in Dirs, env \in {"plain", "unsafe"} }
 
 -----------------------------------------------------------------------------
 (* Vector mode: one state per input. The inputs are the initial states (done = FALSE, exp empty); the      *)
@@ -804,7 +809,7 @@ InitC16SingleTB == (in = Universe \/ in \in SingleThoroughB(0) \/ in \in SingleT
 InitC16Multi  == (in = Universe \/ in \in MultiInputs(0) \/ in \in SiblingInputs(0) \/ in \in BucketPairInputs(0) \/ InitPortPair) /\ Pending
 InitC17       == (in = Universe \/ in \in Inputs17(0)) /\ Pending
 InitC22       == /\ \/ in = Universe
-                    \/ in \in CfgPort(0) \/ in \in CfgOne(0) \/ in \in CfgLists(0)
+                    \/ in \in CfgPort(0) \/ in \in CfgOne(0) \/ in \in CfgLists(0) \/ in \in CfgNested(0)
                     \/ (Thorough /\ in \in CfgTwoAll(0))
                     \/ (~Thorough /\ in \in RandomSubset(NSample, CfgTwoAll(0)))
                  /\ Pending
